@@ -660,8 +660,9 @@ impl DB {
             }
         }
 
-        drop(db_lock);
-
+        // The lock file is unlinked while the lock is still held. If the lock was released first, a
+        // concurrent `DB::open` could lock the file that is about to be unlinked and yet another
+        // open could then create and lock a fresh lock file i.e. two owners of the same database.
         log::info!("Deleting database lock file.");
         if let Err(io_err) = fs.remove_file(&file_name_handler.get_lock_file_path()) {
             log::error!(
@@ -671,6 +672,8 @@ impl DB {
 
             return Err(RainDBError::Destruction(io_err.to_string()));
         }
+
+        drop(db_lock);
 
         if let Some(deletion_err) = maybe_deletion_err {
             return Err(RainDBError::Destruction(deletion_err.to_string()));
